@@ -242,6 +242,80 @@ async fn run_history(max_sessions: usize, evs: &[Ev], settle: Duration, ev: &mut
     problems
 }
 
+/// Many connections arriving at once: whatever order the server accepts them in, when the storm is
+/// over exactly `limit` sessions are served, every other connection has been closed by the server,
+/// and shutdown closes the rest. A second wave on top must again leave exactly `limit`.
+async fn storm(max_sessions: usize, waves: usize, ev: &mut Evidence) -> Vec<(String, String)> {
+    let mut problems = vec![];
+    let listener = tokio::net::TcpListener::bind("127.0.0.1:0").await.unwrap();
+    let addr: SocketAddr = listener.local_addr().unwrap();
+    let map = ServerHandlerMap::single(UnitId::new(1), Fixed.wrap());
+    let (handle, task) = create_tcp_server_task(max_sessions, listener, map, AddressFilter::Any, DecodeLevel::nothing());
+    let jh = tokio::spawn(task.run());
+    let limit = max_sessions.max(1);
+    let mut all: Vec<TcpStream> = vec![];
+    let mut tx = 100u16;
+    for wave in 0..waves {
+        let n = 2 * limit + 5;
+        let conns = futures_join((0..n).map(|_| tokio::spawn(connect_from(None, addr))).collect()).await;
+        for c in conns {
+            match c {
+                Some(Ok(s)) => all.push(s),
+                _ => problems.push(("storm:connect_failed".into(), format!("wave {wave}: a connection was refused while the server was running"))),
+            }
+        }
+        ev.count("storm_connections", n as u64);
+        // let the server accept and evict, then ask everybody
+        tokio::time::sleep(Duration::from_millis(300)).await;
+        let mut alive = 0usize;
+        let mut closed = 0usize;
+        let mut odd = vec![];
+        let mut keep = vec![];
+        for mut s in all.drain(..) {
+            tx = tx.wrapping_add(1);
+            match probe(&mut s, tx, 1, Duration::from_secs(3)).await {
+                Probe::Alive(_) => {
+                    alive += 1;
+                    keep.push(s);
+                }
+                Probe::Closed => closed += 1,
+                other => odd.push(other.name()),
+            }
+        }
+        all = keep;
+        ev.eval();
+        ev.class(format!("storm|max_sessions={max_sessions}|wave{wave}|alive={}", if alive == limit { "limit" } else { "other" }));
+        if alive != limit || !odd.is_empty() {
+            problems.push((
+                format!("storm:alive={}_limit", if alive > limit { "above" } else { "below_or_odd" }),
+                format!("max_sessions={max_sessions}, wave {wave}: after {n} simultaneous connections {alive} sessions are served (limit {limit}), {closed} closed, others: {odd:?}"),
+            ));
+            break;
+        }
+    }
+    drop(handle);
+    if tokio::time::timeout(Duration::from_secs(10), jh).await.is_err() {
+        problems.push(("storm:server_task_did_not_end".into(), "server task still running 10 s after its handle was dropped".into()));
+    }
+    for mut s in all {
+        if !matches!(expect_closed(&mut s, Duration::from_secs(5)).await, Probe::Closed) {
+            problems.push(("storm:session_open_after_shutdown".into(), format!("max_sessions={max_sessions}: a session was still open after the server handle was dropped")));
+            break;
+        } else {
+            ev.count("sessions_closed_on_shutdown", 1);
+        }
+    }
+    problems
+}
+
+async fn futures_join<T: Send + 'static>(hs: Vec<tokio::task::JoinHandle<T>>) -> Vec<Option<T>> {
+    let mut out = vec![];
+    for h in hs {
+        out.push(h.await.ok());
+    }
+    out
+}
+
 fn accept_failure_leg(ev: &mut Evidence, args: &Args) {
     let out = verif_root().join("out").join(format!("c15accept-{}.json", std::process::id()));
     let _ = std::fs::create_dir_all(verif_root().join("out"));
@@ -387,6 +461,18 @@ pub fn run(args: &Args) -> i32 {
                 }
             }
             n = hi;
+        }
+        // connection storms
+        for (k, max_sessions) in [0usize, 1, 3, 16, 64].into_iter().enumerate() {
+            if args.tier.name() == "quick" && k % 2 == (seed % 2) as usize && max_sessions > 1 {
+                continue;
+            }
+            let mut e = Evidence::new();
+            let problems = rt.block_on(storm(max_sessions, args.tier.pick(2, 6), &mut e));
+            ev.merge(e);
+            for (sig, what) in problems {
+                ev.violation(sig, what, json!({"leg": "storm", "max_sessions": max_sessions}));
+            }
         }
         // connections the server cannot accept (descriptor exhaustion): in a process of its own
         drop(rt);
